@@ -25,8 +25,10 @@ def run(pid, tier, seed, runs, exes, wdir, rdir, env, ncpu):
                     shutil.copy(f, cdir)
             s = int.from_bytes(hashlib.sha256(("fz%d/%d" % (seed, idx)).encode()).digest()[:4], "big") or 1
             prefix = os.path.join(rdir, "%s-%s-%s-w%d-" % (pid, r["cfg"], r["bin"], idx))
+            for old in glob.glob(prefix + "*"):      # artifacts of earlier runs (possibly against another tree) are not this run's findings
+                os.remove(old)
             cmd = [exe, "-runs=%d" % r["runs"], "-seed=%d" % s, "-max_len=%d" % r.get("max_len", 512), "-timeout=25", "-rss_limit_mb=2048",
-                   "-artifact_prefix=" + prefix, "-print_final_stats=1", "-detect_leaks=1", "-max_total_time=%d" % r.get("max_time", 600), cdir]
+                   "-artifact_prefix=" + prefix, "-print_final_stats=1", "-len_control=0", "-detect_leaks=1", "-max_total_time=%d" % r.get("max_time", 600), cdir]
             if os.path.exists(os.path.join(HERE, "corpus", "scpi.dict")) and r["bin"] == "fuzz_stream":
                 cmd.insert(-1, "-dict=" + os.path.join(HERE, "corpus", "scpi.dict"))
             jobs.append({"cmd": cmd, "cdir": cdir, "prefix": prefix, "exe": exe, "cfg": r["cfg"], "bin": r["bin"], "idx": idx, "seeded": bool(seeded)})
